@@ -452,6 +452,8 @@ pub enum EncFault {
     MissingInput,
     MissingAlist,
     IndivisiblePattern,
+    /// the output file cannot be created (its directory does not exist)
+    BadOutput,
 }
 
 #[derive(Debug, Clone, Serialize, Deserialize)]
@@ -464,7 +466,7 @@ pub struct EncCase {
 }
 
 fn enc_strategy(_t: Tier) -> BoxedStrategy<EncCase> {
-    (1usize..=4, 1usize..=4, any::<u16>(), any::<bool>())
+    (prop_oneof![3 => 1usize..=4, 1 => 5usize..=11], 1usize..=6, any::<u16>(), any::<bool>())
         .prop_flat_map(|(p, bs, rraw, staircase)| {
             let n = (p * bs).max(2);
             let r = 1 + idx(rraw, (n - 1).min(8)); // 1 <= r <= n-1, so k >= 1
@@ -482,6 +484,7 @@ fn enc_strategy(_t: Tier) -> BoxedStrategy<EncCase> {
                     1 => Just(EncFault::MissingInput),
                     1 => Just(EncFault::MissingAlist),
                     1 => Just(EncFault::IndivisiblePattern),
+                    1 => Just(EncFault::BadOutput),
                 ],
             )
         })
@@ -522,6 +525,7 @@ fn check_enc(c: &EncCase, p: &mut Probe) -> Check {
         }
         EncFault::MissingInput => args[2] = s.path("no-such-input"),
         EncFault::MissingAlist => args[1] = s.path("no-such-alist"),
+        EncFault::BadOutput => args[3] = format!("{}/out.bin", s.path("no-such-directory")),
         EncFault::IndivisiblePattern => {
             // a pattern whose length does not divide n
             let len = (2..=n + 1).find(|l| n % l != 0).unwrap_or(n + 1);
@@ -607,7 +611,7 @@ fn ber_strategy(_t: Tier) -> BoxedStrategy<BerCase> {
                 (prop_oneof![Just(-2.0f64), Just(-1.5), Just(0.0), Just(0.25), Just(1.0)], prop_oneof![Just(0.5f64), Just(0.25), Just(1.0)], 1usize..=3, any::<bool>(),
                     // decimal grids (steps that are not binary fractions), long sweeps included
                     prop_oneof![5 => Just((0i32, 0i32, 0usize)), 1 => (prop_oneof![Just(-100i32), Just(-50), Just(0), Just(30)], prop_oneof![Just(10i32), Just(20), Just(30), Just(70)], 1usize..=4), 2 => (prop_oneof![Just(-100i32), Just(0)], prop_oneof![3 => Just(10i32), 1 => Just(20)], 12usize..=21)]),
-                (3u64..=8, 3usize..=20, 0..36usize, 0u64..=1, any::<bool>(), prop_oneof![9 => Just(0u8), 1 => 1u8..=3]),
+                (3u64..=8, 3usize..=20, 0..36usize, 0u64..=1, any::<bool>(), prop_oneof![9 => Just(0u8), 1 => 1u8..=4]),
             )
         })
         .prop_map(|((n, r, _p, bs, staircase), h0, tail, fix, (mut pat, a, use_pat, ikind, ipick, psk8), (min, step, points, extra_half_step, (dmin, dstep, dpoints)), (frame_errors, max_iter, dec, bch, ldpc_file, fault))| {
@@ -699,6 +703,11 @@ fn check_ber(c: &BerCase, p: &mut Probe) -> Check {
         3 => {
             let i = args.iter().position(|a| a == "--decoder").unwrap();
             args[i + 1] = "NoSuchDecoder".into();
+        }
+        4 => {
+            // the result file cannot be created (its directory does not exist)
+            let i = args.iter().position(|a| a == "--output-file").unwrap();
+            args[i + 1] = format!("{}/out.txt", s.path("no-such-directory"));
         }
         _ => {}
     }
@@ -875,7 +884,7 @@ pub fn property() -> Property {
             }),
             Box::new(Sub {
                 name: "ber",
-                rule: "tiny systematic H, Eb/N0 grid with binary-exact min/step and 1..=3 points, or a decimal grid (step 0.1/0.2/0.3/0.7 dB, 1..=4 or 12..=21 points, passed as decimal strings; the exact number of points is demanded whenever max lies half a step beyond the last point or the f64 evaluation of floor((max-min)/step)+1 agrees with the exact decimal count), optionally max = last point + step/2, --frame-errors 3..=8, any of the 36 decoders, optional outer-code threshold 1 with LDPC-only file, optional puncturing / interleaving / 8PSK: exit 0, one result line per requested point in each output file with frame errors = requested (stop rule), bit errors within [min per frame error x frame errors, k x frames], false decodes <= frames, BER and FER equal to the ratios at the printed precision; missing alist, malformed pattern, unknown decoder: non-zero status, no panic; non-trivial = >= 2 points or outer code",
+                rule: "tiny systematic H, Eb/N0 grid with binary-exact min/step and 1..=3 points, or a decimal grid (step 0.1/0.2/0.3/0.7 dB, 1..=4 or 12..=21 points, passed as decimal strings; the exact number of points is demanded whenever max lies half a step beyond the last point or the f64 evaluation of floor((max-min)/step)+1 agrees with the exact decimal count), optionally max = last point + step/2, --frame-errors 3..=8, any of the 36 decoders, optional outer-code threshold 1 with LDPC-only file, optional puncturing / interleaving / 8PSK: exit 0, one result line per requested point in each output file with frame errors = requested (stop rule), bit errors within [min per frame error x frame errors, k x frames], false decodes <= frames, BER and FER equal to the ratios at the printed precision; missing alist, malformed pattern, unknown decoder, result file in a directory that does not exist: non-zero status, no panic; non-trivial = >= 2 points or outer code",
                 cases: |t| t.pick(400, 8_000),
                 strategy: ber_strategy,
                 check: check_ber,
